@@ -148,4 +148,3 @@ func verifC16Match(maxLabel, maxFrag int) {
 
 func VerifC16Match()     { verifC16Match(6, 3) }
 func VerifC16MatchLong() { verifC16Match(6, 4) }
-
